@@ -42,7 +42,7 @@ ASSUMPTIONS = [
     "tx.ready (the packet generator) is free every cycle",
 ]
 BOUNDS = "BMC from reset; quick: mps 8, handler level K=15 (start + latency + a full packet + stalls), request level " \
-         "K=26 (two packets + retry/ZLP); thorough: mps 8/16 required (handler K=20/25 incl. a second request, request " \
+         "K=22 (two packets + ZLP or a retry); thorough: mps 8/16 required (handler K=20/25 incl. a second request, request " \
          "level K=36/44 = three packets), mps 32/64 best effort (K=mps+8, assertions only)"
 OUTSIDE = "descriptors longer than 2*mps+3 bytes except in the suite collection; foreign ACK handshakes (for other " \
           "endpoints) between a lost ACK and the retry (C08/C14 territory); SETUP arriving in the middle of a " \
@@ -224,9 +224,8 @@ def queries(tier):
     qs = []
     quick = tier == "quick"
     if quick:
-        hcfg = [("block", "sparse", 8, 15), ("distributed", "sparse", 8, 15), ("mux", "sparse", 8, 15),
-                ("block", "dense", 8, 14)]
-        rcfg = [(False, "sparse", 8, False, 26), (True, "sparse", 8, False, 26), (False, "sparse", 8, True, 22)]
+        hcfg = [("block", "sparse", 8, 15), ("distributed", "sparse", 8, 15), ("mux", "sparse", 8, 15)]
+        rcfg = [(False, "sparse", 8, False, 22), (True, "sparse", 8, False, 22), (False, "sparse", 8, True, 20)]
     else:
         hcfg = [(v, k, 8, 20) for v in ("block", "distributed", "mux") for k in ("sparse", "dense")]
         hcfg += [(v, "sparse", 16, 25) for v in ("block", "distributed", "mux")]
@@ -250,7 +249,9 @@ def queries(tier):
     for ab, kind, mps, rt, K in rcfg:
         f = (lambda a=ab, b=kind, c=mps, d=rt: RequestHarness(a, b, c, d))
         tag = f"{'dist' if ab else 'block'}_{kind}_mps{mps}{'_rt' if rt else ''}"
-        qs.append(Query(f"bmc_r_{tag}", f, K, timeout=900, split=not quick,
+        qs.append(Query(f"bmc_r_{tag}", f, K, timeout=900, split=True,
+                        covers=(["full_packet", "short_packet", "zlp", "stall", "continuation", "exact_multiple_zlp",
+                                 "retransmission", "status_after_data"] if quick else None),
                         asserts=stmt if quick else None,
                         desc=f"request level {tag}: host model (IN / ACK delivered or lost / status), setup fields const symbolic"))
         if not quick or not rt:
